@@ -170,6 +170,7 @@ func runC01(c *eng.Ctx) {
 	cr := &caseRunner{c: c, prop: "C01"}
 	defer func() {
 		RunTwoBuilds(c, "C01", cr.next)
+		RunBuildTimeWorker(c, cr.next)
 		// singleton registrations whose constructors are distinct function values sharing code
 		// (closures of one literal, method values, reflect.MakeFunc): each key must be served by
 		// the output of ITS constructor
